@@ -5,7 +5,7 @@ import json, os, subprocess, sys, glob
 HERE = os.path.dirname(os.path.dirname(os.path.abspath(__file__)))
 only = [a for a in sys.argv[1:] if not a.startswith("--")]
 seeds = "1,2" if "--two-seeds" in sys.argv else "1"
-for d in sorted(glob.glob(os.path.join(HERE, "seeded", "*"))):
+for d in sorted(glob.glob(os.path.join(HERE, "seeded", "C*"))):
     sid = os.path.basename(d)
     if only and sid not in only:
         continue
